@@ -26,7 +26,7 @@ PROP = {
                    "variant; (5) for states of which a fork of the cheater produced its own signed HTLC-timeout/success txs "
                    "(ForceClose while the state was current, preimage inserted as the contest resolver does, each validated by the "
                    "interpreter against the revoked tx) a PRNG subset is 'confirmed', the real updateBreachInfo/"
-                   "convertToSecondLevelRevoke runs, every advanced HTLC must then be pursued on the second-level output and not on "
+                   "convertToSecondLevelRevoke runs (the cheater publishing one transaction per HTLC or one aggregated, re-signed transaction for several), every advanced HTLC must then be pursued exactly once on its own second-level output and not on "
                    "the spent one, and every input of all rebuilt variants incl. the per-HTLC second-level sweeps passes the "
                    "interpreter against the real second-level outputs. Negative control: the same pipeline with the revocation "
                    "secret of another height must be rejected by the interpreter (else t.Fatalf => inconclusive). "
@@ -66,7 +66,7 @@ PROP = {
              "after the watcher's instance was loaded, amount data) signatures over the judged revoked states"),
     "assumptions": ["the revoked transaction is the fully signed commitment the engine recorded from the cheater before it revoked it (heights >= 1)",
                     "victim signs with the fixture MockSigner holding its channel base keys; sweep script and fee estimator are fixtures",
-                    "the cheater's second-level transactions are published unmodified (1-in-1-out), as convertToSecondLevelRevoke assumes (output index == input index)",
+                    "the cheater's second-level transactions are published unmodified (1-in-1-out) or, on non-taproot anchor channels, several HTLCs of one lock time aggregated into one transaction re-signed by the cheater (input i pays output i, as lnd's sweeper does and as convertToSecondLevelRevoke assumes); other shapes (extra fee inputs, reordered outputs) are not generated",
                     "the chain watcher's channel state instance is the one decoded from the database at the party's last (re)start and is "
                     "not the instance the LightningChannel advances (as in lnd: ChainArbitrator.Start -> FetchAllChannels vs. the link's channel)"],
     "units": [{
@@ -77,7 +77,7 @@ PROP = {
         "floors": {"quick": {"nontrivial": 150, "revoked_states_with_htlc_outputs": 2000,
                              "oracle_watcher_dispatch_evals": 2500, "oracle_recorded_outputs_evals": 4000,
                              "oracle_justice_inputs": 40000, "oracle_second_level_inputs": 2000,
-                             "second_level_states": 600, "store_roundtrips": 1500, "negctl_evals": 1500,
+                             "second_level_states": 600, "second_level_aggregates": 40, "store_roundtrips": 1500, "negctl_evals": 1500,
                              "noamt_cases": 50, "reconnects": 250,
                              "oracle_cw_state_recognised_evals": 1200, "oracle_cw_retribution_evals": 1200,
                              "cw_heights_revoked_after_load": 1000, "cw_heights_revoked_before_load": 140,
@@ -86,7 +86,7 @@ PROP = {
                    "thorough": {"nontrivial": 6000, "revoked_states_with_htlc_outputs": 80000,
                                 "oracle_watcher_dispatch_evals": 100000, "oracle_recorded_outputs_evals": 170000,
                                 "oracle_justice_inputs": 1500000, "oracle_second_level_inputs": 75000,
-                                "second_level_states": 24000, "store_roundtrips": 55000,
+                                "second_level_states": 24000, "second_level_aggregates": 1500, "store_roundtrips": 55000,
                                 "negctl_evals": 65000, "noamt_cases": 2000, "reconnects": 10000,
                                 "oracle_cw_state_recognised_evals": 45000, "oracle_cw_retribution_evals": 45000,
                                 "cw_heights_revoked_after_load": 38000, "cw_heights_revoked_before_load": 5000,
